@@ -120,10 +120,24 @@ func resolveDependencyTarget(
 	}
 }
 
+// inputsToCheck returns the resolved inputs of the target plus the input patterns that were
+// resolved by globbing. A pattern such as "../*.txt" or "/abs/*.txt" matches nothing inside the
+// package file system and therefore resolves to no input at all, so it has to be checked in its
+// unresolved form or it would be dropped silently.
+func inputsToCheck(target *model.Target) []string {
+	inputs := append([]string{}, target.Inputs...)
+	for _, pattern := range target.UnresolvedInputs {
+		if strings.ContainsAny(pattern, "*?[{") {
+			inputs = append(inputs, pattern)
+		}
+	}
+	return inputs
+}
+
 // checkInputPathsRelative checks that all inputs are relative to the package path
 // and do not point outside the package
 func checkInputPathsRelative(target *model.Target) (errs []error) {
-	for _, input := range target.Inputs {
+	for _, input := range inputsToCheck(target) {
 		if path.IsAbs(input) {
 			errs = append(errs, fmt.Errorf(
 				"input %s for target %s is not relative",
